@@ -231,7 +231,7 @@ def check_cbrt_error(fx, steps):
     u2 = EB.U * EB.U
     e1 = (1 + EB.E_MUL_DD) ** 2 - 1                               # x2 = x*x, x2*x
     e3 = (1 + EB.E_MUL_DD) * (1 + EB.E_MUL_FP) - 1                # 3.0 * x2
-    kappa = (1 + EB.E_ADD_DD) * (1 + EB.E_DIV_DD) / (1 - e3) - 1  # subtraction, long division (C05's statement), denominator
+    kappa = (1 + EB.E_ADD_DD) * (1 + EB.E_DIV_DD) / (1 - e3) - 1  # subtraction, long division (C05, rule R10e), denominator
     e5 = EB.E_ADD_DD                                              # x - delta
     e = _Fr(1, 2 ** 30)                                           # libm::cbrt(hi) vs cbrt(hi + lo): a very weak assumption suffices
     hist = []
@@ -242,7 +242,7 @@ def check_cbrt_error(fx, steps):
         hist.append("%.3g u^2" % float(e / u2))
     rep.check(e <= 16 * u2, "R31e", "cbrt relative error for hi in [2^-900, 2^900]", "errbound:cbrt",
               "%d Newton step(s) from an estimate within 2^-30 leave %.3g u^2, the property needs 16 u^2" % (steps, float(e / u2)),
-              detail={"after each step": hist, "lemmas": "libm::cbrt within 2^-30 relative; operator bounds (C03, C04), long division within 16u^2 (C05's statement)"})
+              detail={"after each step": hist, "lemmas": "libm::cbrt within 2^-30 relative; operator bounds (C03, C04), long division within 16u^2 (C05, rule R10e)"})
 
 def check_powi_error(fx):
     """R26e: binary exponentiation (the loop form R26 established) multiplies n - 1 times in effect: value_j = x^(2^j)(1+e)^(2^j - 1),
@@ -898,7 +898,7 @@ def check_sincos_total_error(fx, role):
     detail = {"approx_sin": "2^%.2f" % L(a_s), "approx_cos": "2^%.2f" % L(a_c), "eval_sin": "2^%.2f" % L(e_s), "eval_cos": "2^%.2f" % L(e_c),
               "reduction": "2^%.2f" % L(rho), "total": "2^%.2f" % L(tot_sin), "monomials": [len(ms), len(mc)],
               "max_reduced_argument_minus_pi_4": "2^%.2f" % L(max(rmax - Fr(7853981633974483, 10 ** 16), Fr(1, 2 ** 200))),
-              "lemmas": "op error bounds of JMP Alg. 4/6/9/12 (conformance: C03, C04); quotient within 16u^2 (C05's statement; anything below 2^-61 suffices); round exact (C08); q mod 4 exact (scaling by 4)"}
+              "lemmas": "op error bounds of JMP Alg. 4/6/9/12 (conformance: C03, C04); quotient within 16u^2 (C05, rule R10e; anything below 2^-61 suffices); round exact (C08); q mod 4 exact (scaling by 4)"}
     rep.check(dom_ok, "R43e", "reduced argument stays in the kernel interval", "errbound:domain",
               "for |x| <= 2^20 the reduced argument can reach %s, beyond the interval the kernel bounds cover" % float(rmax), detail=detail["max_reduced_argument_minus_pi_4"], nontrivial=False)
     rep.check(tot_sin <= Fr(1, 2 ** 66), "R43e", "sin, cos absolute error for 2^-400 <= |x| <= 2^20", "errbound:sincos-abs",
@@ -977,7 +977,7 @@ def check_atan_total_error(fx, tab):
     rel_atan2 = rel_atan + EB.E_DIV_DD + glue
     L = EB.log2f
     detail = {"kernel_rel": "2^%.2f" % L(eps_k), "transform": "2^%.2f" % L(eps_t), "atan": "2^%.2f" % L(rel_atan), "atan2": "2^%.2f" % L(rel_atan2),
-              "lemmas": "operator bounds (C03, C04 conformance), division within 16u^2 (C05's statement), no underflow (|x| >= 2^-400)"}
+              "lemmas": "operator bounds (C03, C04 conformance), division within 16u^2 (C05, rule R10e), no underflow (|x| >= 2^-400)"}
     rep.check(rel_atan <= Fr(1, 2 ** 70), "R43e", "atan relative error for 2^-400 <= |x| <= 2^60", "errbound:atan",
               "atan's relative error is bounded only by 2^%.2f, the property needs 2^-70" % L(rel_atan), detail=detail)
     rep.check(rel_atan2 <= Fr(1, 2 ** 69), "R43e", "atan2 relative error off the axes", "errbound:atan2",
